@@ -354,8 +354,9 @@ func (c ipamClient) determinePools(ctx context.Context, requestedPoolNets []net.
 
 // prepareAffinityBlocksForHost returns a list of blocks affine to a node based on requested IP pools.
 // It also releases any emptied blocks still affine to this host but no longer part of an IP Pool which
-// selects this node. It returns matching pools, list of host-affine blocks and any error encountered.
-func (c ipamClient) prepareAffinityBlocksForHost(ctx context.Context, config *IPAMConfig, requestedPools []net.IPNet, version int, host string, rsvdAttr *HostReservedAttr, use v3.IPPoolAllowedUse, namespace *corev1.Namespace) ([]v3.IPPool, []net.IPNet, error) {
+// selects this node. It returns matching pools, the list of host-affine blocks in those pools, the total
+// number of blocks affine to the host (in any pool, for enforcing the per-host block limit) and any error encountered.
+func (c ipamClient) prepareAffinityBlocksForHost(ctx context.Context, config *IPAMConfig, requestedPools []net.IPNet, version int, host string, rsvdAttr *HostReservedAttr, use v3.IPPoolAllowedUse, namespace *corev1.Namespace) ([]v3.IPPool, []net.IPNet, int, error) {
 	// Retrieve node for given hostname to use for ip pool node selection
 	var node *model.KVPair
 	var err error
@@ -370,13 +371,13 @@ func (c ipamClient) prepareAffinityBlocksForHost(ctx context.Context, config *IP
 		node, err = c.client.Get(ctx, model.ResourceKey{Kind: internalapi.KindNode, Name: host}, "")
 		if err != nil {
 			log.WithError(err).WithField("node", host).Error("failed to get node for host")
-			return nil, nil, err
+			return nil, nil, 0, err
 		}
 
 		// Make sure the returned value is OK.
 		v3n, ok = node.Value.(*internalapi.Node)
 		if !ok {
-			return nil, nil, fmt.Errorf("Datastore returned malformed node object")
+			return nil, nil, 0, fmt.Errorf("Datastore returned malformed node object")
 		}
 	} else {
 		// Special case for Service LoadBalancer that is affined to virtual node
@@ -387,17 +388,17 @@ func (c ipamClient) prepareAffinityBlocksForHost(ctx context.Context, config *IP
 
 	maxPrefixLen, err := getMaxPrefixLen(version, rsvdAttr)
 	if err != nil {
-		return nil, nil, err
+		return nil, nil, 0, err
 	}
 
 	// Determine the correct set of IP pools to use for this request.
 	// For some IPs (e.g., tunnel addresses), we don't have namespace context, so use empty values
 	poolsSelectingNode, allPools, err := c.determinePools(ctx, requestedPools, version, *v3n, namespace, maxPrefixLen)
 	if err != nil {
-		return nil, nil, err
+		return nil, nil, 0, err
 	}
 	if len(poolsSelectingNode) == 0 {
-		return nil, nil, fmt.Errorf("no configured Calico pools for node %s", host)
+		return nil, nil, 0, fmt.Errorf("no configured Calico pools for node %s", host)
 	}
 
 	// Figure out what subset of the selecting pools we're allowed to use for the request according to the
@@ -407,7 +408,7 @@ func (c ipamClient) prepareAffinityBlocksForHost(ctx context.Context, config *IP
 
 	// If there are no allowed pools, we cannot assign addresses.
 	if len(poolsAllowedByUse) == 0 {
-		return nil, nil, fmt.Errorf("%w, no pools match the required use (%v)", ErrNoQualifiedPool, use)
+		return nil, nil, 0, fmt.Errorf("%w, no pools match the required use (%v)", ErrNoQualifiedPool, use)
 	}
 
 	logCtx := log.WithFields(log.Fields{"host": host})
@@ -416,23 +417,24 @@ func (c ipamClient) prepareAffinityBlocksForHost(ctx context.Context, config *IP
 	logCtx.Info("Looking up existing affinities for host")
 	allAffBlocks, err := c.blockReaderWriter.getAffineBlocks(ctx, affinityCfg, version)
 	if err != nil {
-		return nil, nil, err
+		return nil, nil, 0, err
 	}
 
 	// Split the blocks into ones that we're allowed to use and ones that we're not allowed to use for this
 	// allocation.
 	allowedAffBlocks, nonAllowedAffBlocks, err := filterBlocksByPools(allAffBlocks, poolsAllowedByUse)
 	if err != nil {
-		return nil, nil, err
+		return nil, nil, 0, err
 	}
 	// Further, split the non-allowed blocks into ones that are from pools that select this node and pools that
 	// don't select this node.  We'll try to release the latter below.
 	_, affBlocksToRelease, err := filterBlocksByPools(nonAllowedAffBlocks, poolsSelectingNode)
 	if err != nil {
-		return nil, nil, err
+		return nil, nil, 0, err
 	}
 
 	// Release any emptied blocks still affine to this host but no longer part of an IP Pool which selects this node.
+	numReleased := 0
 	for _, block := range affBlocksToRelease {
 		// Determine the pool for each block.
 		pool, err := c.blockReaderWriter.getPoolForIP(ctx, net.IP{IP: block.IP}, allPools)
@@ -473,11 +475,15 @@ func (c ipamClient) prepareAffinityBlocksForHost(ctx context.Context, config *IP
 				}
 			}
 			logCtx.WithField("block", block).Info("Released affine block that no longer selects this host")
+			if _, notEmpty := err.(errBlockNotEmpty); !notEmpty {
+				// The host no longer holds this block (unlike a non-empty block, which we keep).
+				numReleased++
+			}
 			break
 		}
 	}
 
-	return poolsAllowedByUse, allowedAffBlocks, nil
+	return poolsAllowedByUse, allowedAffBlocks, len(allAffBlocks) - numReleased, nil
 }
 
 // filterPoolsByUse returns a slice containing the subset of the input pools that are allowed for the given use.
@@ -723,15 +729,16 @@ func (c ipamClient) autoAssign(ctx context.Context, num int, handleID *string, a
 		logCtx = logCtx.WithField("handle", *handleID)
 	}
 	logCtx.Info("Looking up existing affinities for host")
-	pools, affBlocks, err := c.prepareAffinityBlocksForHost(ctx, config, requestedPools, version, host, rsvdAttr, use, namespace)
+	pools, affBlocks, numAffBlocksHeld, err := c.prepareAffinityBlocksForHost(ctx, config, requestedPools, version, host, rsvdAttr, use, namespace)
 	if err != nil {
 		return nil, err
 	}
 
 	logCtx.Debugf("Found %d affine IPv%d blocks for host: %v", len(affBlocks), version, affBlocks)
 
-	// Record how many blocks we own so we can check against the limit later.
-	numBlocksOwned := len(affBlocks)
+	// Record how many blocks we own so we can check against the limit later.  The limit applies to all
+	// the blocks affine to this host, not only the ones in the pools that this request can use.
+	numBlocksOwned := numAffBlocksHeld
 
 	// Merge in any global config, if it exists. We use the more restrictive value between
 	// the global max block limit, and the limit provided on this particular request.
@@ -2590,7 +2597,7 @@ func (c ipamClient) ensureBlock(ctx context.Context, rsvdAttr *HostReservedAttr,
 
 	logCtx.Info("Looking up existing affinities for host")
 	// For ensureBlock, we don't have namespace context, so pass nil
-	pools, affBlocks, err := c.prepareAffinityBlocksForHost(ctx, config, requestedPools, version, affinityCfg.Host, rsvdAttr, v3.IPPoolAllowedUseWorkload, nil)
+	pools, affBlocks, _, err := c.prepareAffinityBlocksForHost(ctx, config, requestedPools, version, affinityCfg.Host, rsvdAttr, v3.IPPoolAllowedUseWorkload, nil)
 	if err != nil {
 		return nil, err
 	}
